@@ -159,6 +159,9 @@ class ASTCodeGenerator(object):
         # In Python 3 arguments get a special node
         def visit_arg(self, node):
             self._write(node.arg)
+            if getattr(node, 'annotation', None):
+                self._write(': ')
+                self.visit(node.annotation)
 
     def visit_Starred(self, node):
         self._write('*')
@@ -179,7 +182,11 @@ class ASTCodeGenerator(object):
         self._new_line()
         self._write('def ' + node.name + '(')
         self.visit(node.args)
-        self._write('):')
+        self._write(')')
+        if getattr(node, 'returns', None):
+            self._write(' -> ')
+            self.visit(node.returns)
+        self._write(':')
         self._change_indent(1)
         for statement in node.body:
             self.visit(statement)
